@@ -747,7 +747,7 @@ def check(ctx):
     ND = ctx.pick(4, 6)
     for p in core.pmap(unit_nested, [("nested", ev, ND) for ev in NESTED_EVENTS]):
         agg.merge(p)
-    agg.notes["bound"] = f"H: depth<={depth} events after the seed; E: vectors of length<={N} over 9 values; nested vectors: every history of <={ND} events over {len(NESTED_EVENTS)}"
+    agg.notes["bound"] = f"H: depth<={depth} events after the seed; E: vectors of length<={N} over 9 values; nested vectors: every history of <={ND} events over {len(NESTED_EVENTS)}; every result of the derivation catalogue taken from operands with a cached fingerprint"
     return agg
 
 
